@@ -30,6 +30,42 @@ def elem(t):
 
 
 def analyse(obs: Obs, prog):
+    # ---------------------------------------------------------------- the batch length is read off the first array leaf of a mapped argument: an argument
+    # without leaves ((), None, {}) - which jax.vmap accepts - must not be indexed
+    import ast as _ast
+    _V = prog.cls("Vmap", "combinators/vmap.py")
+    _fn = _V.methods.get("_static_broadcast_dim_length")
+    if _fn is None:
+        raise AnalysisError("Vmap._static_broadcast_dim_length not found")
+    _par = {}
+    for _n in _ast.walk(_fn):
+        for _c in _ast.iter_child_nodes(_n):
+            _par[_c] = _n
+    _bad, _sites = [], 0
+    _leafvars = {}
+    for _n in _ast.walk(_fn):
+        if isinstance(_n, _ast.Assign) and isinstance(_n.value, _ast.Call) and _ast.unparse(_n.value.func).endswith("tree_leaves") and len(_n.targets) == 1 and isinstance(_n.targets[0], _ast.Name):
+            _leafvars[_n.targets[0].id] = _n
+    for _n in _ast.walk(_fn):
+        if isinstance(_n, _ast.Subscript) and isinstance(_n.slice, _ast.Constant) and _n.slice.value == 0:
+            base = _n.value
+            is_leaves = (isinstance(base, _ast.Call) and _ast.unparse(base.func).endswith("tree_leaves")) or (isinstance(base, _ast.Name) and base.id in _leafvars)
+            if not is_leaves:
+                continue
+            arg_txt = _ast.unparse(base.args[0]) if isinstance(base, _ast.Call) and base.args else (_ast.unparse(_leafvars[base.id].value.args[0]) if isinstance(base, _ast.Name) and _leafvars[base.id].value.args else "")
+            if arg_txt == "axis_sizes":
+                continue  # the final read over the collected sizes, validated non-empty by the jax.vmap call above
+            _sites += 1
+            guarded = False
+            cur = _n
+            while cur in _par:
+                cur = _par[cur]
+                if isinstance(cur, (_ast.If, _ast.IfExp)) and isinstance(base, _ast.Name) and base.id in _ast.unparse(cur.test):
+                    guarded = True
+            if not guarded:
+                _bad.append(f"line {_n.lineno}: {_ast.unparse(_n)[:60]}")
+    obs.add({"C11", "C04"}, "LEAF-GUARD", "Vmap._static_broadcast_dim_length/first-leaf", not _bad, construct="first array leaf of a mapped argument",
+            derived=f"unguarded {_bad}" if _bad else f"{_sites} first-leaf access(es), each under a test that the leaf list is non-empty", expected="an argument without array leaves is skipped, not indexed (IndexError)", where=f"{_V.module.rel}:{_fn.lineno}")
     V = prog.cls("Vmap", MOD)
     VT = prog.cls("VmapTrace", MOD)
     W = lambda c, m: f"{c.module.rel}:{c.methods[m].lineno}"
@@ -147,7 +183,7 @@ def analyse(obs: Obs, prog):
         takes = [c for c in calls(ps, "take")] if ps is not None else []
         oktake = len(takes) == 1 and takes[0][2][1] == IDX and dict(takes[0][3]).get("axis") == ("leaf", INAX) and is_t(ps, "treemap") and ps[2] == (INAX, PR)
         nonearm = ps is not None and mentions_any(ps, lambda x: is_t(x, "phi") and is_t(x[1], "is") and x[1][1] == ("leaf", INAX) and x[2] == ("leaf", PR))
-        obs.add({"C11", "C01", "C05"}, "IDX-ALIGN", "Vmap.edit_index/arg-slice", okad and oktake and nonearm, derived=ad,
+        obs.add({"C11", "C01", "C02", "C05", "C06"}, "IDX-ALIGN", "Vmap.edit_index/arg-slice", okad and oktake and nonearm, derived=ad,
                 expected="Diff.tree_diff(tree_map(axis, x -> x if axis is None else take(x, idx, axis=axis), self.in_axes, primals), tree_tangent(argdiffs))", where=w)
         new_inner = ("treemap", ("atset", ("leaf", tin), IDX, ("leaf", mk_proj(e, 0))), (tin, mk_proj(e, 0)))
         f = ctor_fields(prog, q[0], "VmapTrace", "Vmap.edit_index")
